@@ -75,6 +75,11 @@ impl DeleteVector {
         self.rowset_id
     }
 
+    /// Whether the row is deleted by this DV.
+    pub fn contains(&self, row_id: u32) -> bool {
+        self.deletes.binary_search(&row_id).is_ok()
+    }
+
     /// Apply the current DV info to a visibility bitmap
     pub fn apply_to(&self, data: &mut BitVec, offset_row_id: u32) {
         let pos = self.deletes.partition_point(|x| *x < offset_row_id);
